@@ -23,7 +23,7 @@ SPEC = {
              "opcode or label spelling); distinct = distinct (recipe, annotation) hashes."),
     "assumptions": ["vlib/tealgrammar.py tokenizer drops exactly what the assembler treats as comments", "label alpha-renaming in order of definition"],
     "min_evaluations": {"quick": 4000, "thorough": 50000},
-    "must_reach": ["streams_equal", "kind_comment_after_exit", "universal_newline_model_compared", "kind_comment_wrap", "kind_comment_alone", "kind_assert_comment", "kind_pragma", "kind_nonce", "kind_subname", "exec_equal"],
+    "must_reach": ["streams_equal", "kind_comment_after_exit", "universal_newline_model_compared", "kind_comment_wrap", "kind_comment_alone", "kind_assert_comment", "kind_pragma", "kind_nonce", "kind_subname", "exec_equal", "pairs_with_slot_optimisation"],
     "shard_timeout": {"quick": 2400, "thorough": 14400},
 }
 
@@ -234,8 +234,11 @@ def compile_variant(pt, recipe, nonce, version, mode, fp):
     prog = build.build(recipe)
     if nonce is not None:
         prog = pt.Nonce(nonce[0], nonce[1], prog)
+    ss = False
+    if isinstance(fp, (list, tuple)):  # [frame_pointers, scratch_slots]: annotations must not matter to the optimiser either
+        fp, ss = fp
     return pt.compileTeal(prog, pt.Mode.Application if mode == "app" else pt.Mode.Signature, version=version,
-                          optimize=pt.OptimizeOptions(scratch_slots=False, frame_pointers=fp))
+                          optimize=pt.OptimizeOptions(scratch_slots=ss, frame_pointers=fp))
 
 
 def nonce_value(nonce):
@@ -350,7 +353,10 @@ def run_shard(shard):
             variant, notes, nonce = annotate(rng, recipe, bulk=(j == 3))
             if not notes:
                 continue
-            check_pair(acc, pt, recipe, variant, notes, nonce, v, mode, fp, ctx, "random")
+            ss = rng.choice([False, False, None, True])
+            if ss is not False:
+                acc.counters["pairs_with_slot_optimisation"] += 1
+            check_pair(acc, pt, recipe, variant, notes, nonce, v, mode, [fp, ss], ctx, "random")
     for _ in range(6):
         name_sequence_probe(acc, pt, rng)
     if shard["shard"] == 0:
